@@ -85,43 +85,49 @@ Qed.
 (* ---------------------------------------------------------------------------------------------------------- *)
 (* /devices: entries as GET answers them for disabled devices *)
 
-Lemma add_slaves_sticky : forall doc acc i x devs err, add_slaves acc doc i (Some x) = (devs, err) -> err = Some x.
+Lemma add_slaves_sticky : forall reach doc acc i x devs err, add_slaves reach acc doc i (Some x) = (devs, err) -> err = Some x.
 Proof.
   induction doc as [|e r IH]; intros acc i x devs err; cbn [add_slaves]. { intros H; inversion H; reflexivity. }
   destruct (existsb (same_endpoint e) acc); [apply IH|].
   destruct (truthy (get "poll_interval" e) && truthy (get "listen_enabled" e)); [apply IH|].
-  destruct (is_null (get "admin_password" e) && is_null (get "admin_password_hash" e)); apply IH.
+  destruct (is_null (get "admin_password" e) && is_null (get "admin_password_hash" e)); [apply IH|].
+  destruct (slave_no_listen reach e); apply IH.
 Qed.
 
-Lemma add_slaves_ok : forall doc acc i devs,
-  add_slaves acc doc i None = (devs, None) -> devs = acc ++ map slave_json doc.
+Lemma add_slaves_ok : forall reach doc acc i devs,
+  add_slaves reach acc doc i None = (devs, None) -> devs = acc ++ map (slave_result reach) doc.
 Proof.
   induction doc as [|e r IH]; intros acc i devs; cbn [add_slaves map].
   - intros H; inversion H. now rewrite app_nil_r.
   - destruct (existsb (same_endpoint e) acc). { intros H. apply add_slaves_sticky in H. discriminate. }
     destruct (truthy (get "poll_interval" e) && truthy (get "listen_enabled" e)). { intros H. apply add_slaves_sticky in H. discriminate. }
     destruct (is_null (get "admin_password" e) && is_null (get "admin_password_hash" e)). { intros H. apply add_slaves_sticky in H. discriminate. }
+    destruct (slave_no_listen reach e). { intros H. apply add_slaves_sticky in H. discriminate. }
     intros H. apply IH in H. now rewrite H, <- app_assoc.
 Qed.
 
-Theorem slaves_roundtrip : forall s1 s2 s2',
-  (forall e, In e (sl_devices s1) -> slave_json e = e) ->       (* what GET answers for a device that is disabled *)
-  put_slave_devices (get_slave_devices s1) s2 = (s2', None) ->
-  get_slave_devices s2' = get_slave_devices s1 /\ sl_updating s2' = true /\ sl_events s2' = true.
+(* [reach]: what the devices on the network answer while the restore runs.  Premise: every entry of the backup is what the restore
+   makes of it (apart from online / last_sync) - a disabled device as it is kept, an enabled one reachable with the attributes the
+   backup recorded, its sync method stated explicitly (as GET /devices always states it) *)
+Theorem slaves_roundtrip : forall reach s1 s2 s2',
+  (forall e, In e (sl_devices s1) -> strip_slave (slave_result reach e) = strip_slave e) ->
+  put_slave_devices reach (get_slave_devices s1) s2 = (s2', None) ->
+  map strip_slave (get_slave_devices s2') = map strip_slave (get_slave_devices s1)
+  /\ sl_updating s2' = true /\ sl_events s2' = true.
 Proof.
-  intros s1 s2 s2' FIX. unfold put_slave_devices, get_slave_devices.
+  intros reach s1 s2 s2' FIX. unfold put_slave_devices, get_slave_devices.
   destruct (first_invalid_slave (sl_devices s1) 0) as [[[i c] f]|]. { intros H; inversion H. }
-  destruct (add_slaves [] (sl_devices s1) 0 None) as [devs er] eqn:A. intros H; inversion H; subst; clear H.
+  destruct (add_slaves reach [] (sl_devices s1) 0 None) as [devs er] eqn:A. intros H; inversion H; subst; clear H.
   apply add_slaves_ok in A. subst devs. cbn. split; [|auto].
   induction (sl_devices s1) as [|e r IH]; cbn; [reflexivity|]. rewrite FIX by now left. f_equal. apply IH.
   intros e' I. apply FIX. now right.
 Qed.
 
-Theorem slaves_flags_restored : forall doc s s' err,
-  put_slave_devices doc s = (s', err) -> sl_updating s' = true /\ sl_events s' = true.
+Theorem slaves_flags_restored : forall reach doc s s' err,
+  put_slave_devices reach doc s = (s', err) -> sl_updating s' = true /\ sl_events s' = true.
 Proof.
-  intros doc s s' err. unfold put_slave_devices.
-  destruct (first_invalid_slave doc 0) as [[[i c] f]|]; [|destruct (add_slaves [] doc 0 None)]; intros H; inversion H; subst; cbn; auto.
+  intros reach doc s s' err. unfold put_slave_devices.
+  destruct (first_invalid_slave doc 0) as [[[i c] f]|]; [|destruct (add_slaves reach [] doc 0 None)]; intros H; inversion H; subst; cbn; auto.
 Qed.
 
 (* ---------------------------------------------------------------------------------------------------------- *)
